@@ -128,7 +128,7 @@ mod verif_kani_array {
         laws3(any_complex(), any_complex(), any_complex());
     }
 
-    //@ id=C15.e1.f64.eq_implies_hash_eq props=C15,C16 level=complete tier=quick desc="f64: equal values write identical bytes to the hasher (map-sentinel NaN payloads excluded: see the _sentinels obligation)"
+    //@ id=C15.e1.f64.eq_implies_hash_eq props=C15,C16,C05 level=complete tier=quick desc="f64: equal values write identical bytes to the hasher (map-sentinel NaN payloads excluded: see the _sentinels obligation)"
     #[kani::proof]
     fn vk_c15_f64_eq_implies_hash_eq() {
         let a = any_f64_nw();
